@@ -3139,3 +3139,238 @@ func ruleQueuesDrained(id string) func(*Checker) {
 		c.check(len(rets) > 0, id, name, "returns", p.Pos(fn.Pos()), fmt.Sprintf("%d return(s)", len(rets)), "the draining entry point has no return")
 	}
 }
+
+// ruleDefaultRulesOrder — the built-in rules, read in order: what they exclude stays excluded.
+func ruleDefaultRulesOrder(id string) func(*Checker) {
+	return func(c *Checker) {
+		c.rule(id, "The built-in ignore rules are read from the initialiser of the package-level rule table (a literal table: the constants each pattern is made of and its 'negated' flag, in index order; or a text constant handed to the module's own parser: its lines in order). The last matching rule wins, so: the rule that excludes .git comes after every negated rule (a negation placed later re-includes .terraform/modules/x/.git/…), and the negation of .terraform/modules comes after the rule that excludes .terraform.", 3)
+		p := c.P
+		type item struct {
+			text    string
+			negated bool
+			pos     token.Pos
+		}
+		var items []item
+		var initFn *ssa.Function
+		var tableStore *ssa.Store
+		for _, fn := range p.Funcs {
+			if !isInitFunc(fn) || fn.Package() == nil || fn.Package().Pkg.Path() != p.PkgPath("ignorefiles") {
+				continue
+			}
+			eachInstr(fn, func(in ssa.Instruction) {
+				st, ok := in.(*ssa.Store)
+				if !ok {
+					return
+				}
+				g, ok := st.Addr.(*ssa.Global)
+				if !ok {
+					return
+				}
+				if sl, ok := derefType(g.Type()).Underlying().(*types.Slice); ok && strings.HasSuffix(types.TypeString(sl.Elem(), nil), "ignorefiles.rule") {
+					initFn, tableStore = fn, st
+				}
+			})
+		}
+		if tableStore == nil {
+			c.anchorMissing(id, "the package-level table of built-in rules ([]rule) in ignorefiles")
+			return
+		}
+		readable := false
+		if sl, ok := tableStore.Val.(*ssa.Slice); ok {
+			if al, ok := sl.X.(*ssa.Alloc); ok {
+				// literal table
+				byIdx := map[int64]*item{}
+				eachInstr(initFn, func(in ssa.Instruction) {
+					st, ok := in.(*ssa.Store)
+					if !ok {
+						return
+					}
+					fa, ok := st.Addr.(*ssa.FieldAddr)
+					if !ok {
+						return
+					}
+					ia, ok := fa.X.(*ssa.IndexAddr)
+					if !ok {
+						// an element built in a temporary (a constructor helper, inlined) and stored whole
+						if tmp, isA := fa.X.(*ssa.Alloc); isA {
+							if refs := tmp.Referrers(); refs != nil {
+								for _, r := range *refs {
+									ld, isLd := r.(*ssa.UnOp)
+									if !isLd || ld.Op != token.MUL || ld.Referrers() == nil {
+										continue
+									}
+									for _, rr := range *ld.Referrers() {
+										if st2, ok := rr.(*ssa.Store); ok && st2.Val == ssa.Value(ld) {
+											if ia2, ok := st2.Addr.(*ssa.IndexAddr); ok && ia2.X == ssa.Value(al) {
+												ia = ia2
+											}
+										}
+									}
+								}
+							}
+						}
+						if ia == nil {
+							return
+						}
+					}
+					if ia.X != ssa.Value(al) {
+						return
+					}
+					k, isC := constInt(ia.Index)
+					if !isC {
+						return
+					}
+					it := byIdx[k]
+					if it == nil {
+						it = &item{pos: st.Pos()}
+						byIdx[k] = it
+					}
+					switch fieldOf(fa).Name() {
+					case "val":
+						var parts []string
+						for w := range p.backSlice(st.Val, 0) {
+							if s, ok := constString(w); ok && s != "**" && len(s) > 1 {
+								parts = append(parts, s)
+							}
+						}
+						sort.Strings(parts)
+						it.text = strings.Join(parts, " ")
+					case "negated":
+						if b, ok := constBool(canon(st.Val)); ok {
+							it.negated = b
+						} else if b, ok := boolThroughStructCopies(st.Val, 0); ok {
+							it.negated = b
+						} else {
+							it.text += " ?negated"
+						}
+					}
+				})
+				var ks []int
+				for k := range byIdx {
+					ks = append(ks, int(k))
+				}
+				sort.Ints(ks)
+				for _, k := range ks {
+					items = append(items, *byIdx[int64(k)])
+				}
+				readable = len(items) > 0
+			}
+		}
+		if !readable {
+			// a text constant parsed by the module's own parser
+			if cl := callOf(tableStore.Val); cl != nil && cl.Common().StaticCallee() != nil && p.InModule(cl.Common().StaticCallee()) {
+				for _, g := range sortedFuncs(p.reach(cl.Common().StaticCallee())) {
+					if !p.InModule(g) {
+						continue
+					}
+					eachInstr(g, func(in ssa.Instruction) {
+						var ops [8]*ssa.Value
+						for _, op := range in.Operands(ops[:0]) {
+							if op == nil || *op == nil {
+								continue
+							}
+							s, ok := constString(*op)
+							if !ok || !strings.Contains(s, "\n") || !strings.Contains(s, ".git") || readable {
+								continue
+							}
+							for _, ln := range strings.Split(s, "\n") {
+								ln = strings.TrimSpace(ln)
+								if ln == "" || strings.HasPrefix(ln, "#") {
+									continue
+								}
+								items = append(items, item{text: strings.TrimPrefix(ln, "!"), negated: strings.HasPrefix(ln, "!"), pos: in.Pos()})
+							}
+							readable = true
+						}
+					})
+				}
+			}
+		}
+		if !readable {
+			c.fail(id, p.FuncName(initFn), "built-in rules readable", p.Pos(tableStore.Pos()), "the table of built-in rules is neither a literal table nor a text constant handed to the module's parser: their order cannot be read")
+			return
+		}
+		gitIdx, tfIdx, modIdx, lastNeg := -1, -1, -1, -1
+		for i, it := range items {
+			switch {
+			case strings.Contains(it.text, ".git") && !it.negated:
+				gitIdx = i
+			case strings.Contains(it.text, ".terraform") && strings.Contains(it.text, "modules") && it.negated:
+				modIdx = i
+			case strings.Contains(it.text, ".terraform") && !it.negated:
+				tfIdx = i
+			}
+			if it.negated {
+				lastNeg = i
+			}
+		}
+		name := p.FuncName(initFn)
+		pos := p.Pos(tableStore.Pos())
+		c.check(gitIdx >= 0, id, name, ".git excluded by a built-in rule", pos, "present", "no built-in rule excludes .git")
+		c.check(gitIdx > lastNeg, id, name, ".git rule after every negation", pos, fmt.Sprintf("rule %d, last negation %d", gitIdx, lastNeg), "a negated built-in rule comes after the rule that excludes .git: the last match wins, so .terraform/modules/<module>/.git/… is re-included and shipped")
+		c.check(tfIdx >= 0 && modIdx > tfIdx, id, name, ".terraform/modules negation after the .terraform rule", pos, fmt.Sprintf("rules %d, %d", tfIdx, modIdx), "the built-in negation of .terraform/modules does not come after the rule that excludes .terraform: installed modules are left out (or .terraform is shipped)")
+	}
+}
+
+// boolThroughStructCopies: the constant a bool holds when it is read from a field of a local struct that was
+// filled by field stores of constants or copied whole from another such local (a flags literal handed to an
+// inlined constructor). A field never stored is false.
+func boolThroughStructCopies(v ssa.Value, depth int) (bool, bool) {
+	if depth > 6 {
+		return false, false
+	}
+	if b, ok := constBool(v); ok {
+		return b, true
+	}
+	ld, ok := v.(*ssa.UnOp)
+	if !ok || ld.Op != token.MUL {
+		return false, false
+	}
+	fa, ok := ld.X.(*ssa.FieldAddr)
+	if !ok {
+		return false, false
+	}
+	al, ok := fa.X.(*ssa.Alloc)
+	if !ok {
+		return false, false
+	}
+	return fieldOfLocalStruct(al, fa.Field, depth)
+}
+
+func fieldOfLocalStruct(al *ssa.Alloc, field int, depth int) (bool, bool) {
+	if depth > 6 || al.Referrers() == nil {
+		return false, false
+	}
+	var fieldStores, wholeStores []*ssa.Store
+	for _, r := range *al.Referrers() {
+		switch x := r.(type) {
+		case *ssa.FieldAddr:
+			if x.Field != field || x.Referrers() == nil {
+				continue
+			}
+			for _, rr := range *x.Referrers() {
+				if st, ok := rr.(*ssa.Store); ok && st.Addr == ssa.Value(x) {
+					fieldStores = append(fieldStores, st)
+				}
+			}
+		case *ssa.Store:
+			if x.Addr == ssa.Value(al) {
+				wholeStores = append(wholeStores, x)
+			}
+		}
+	}
+	switch {
+	case len(fieldStores) == 1 && len(wholeStores) == 0:
+		return boolThroughStructCopies(fieldStores[0].Val, depth+1)
+	case len(fieldStores) == 0 && len(wholeStores) == 1:
+		if ld, ok := wholeStores[0].Val.(*ssa.UnOp); ok && ld.Op == token.MUL {
+			if src, ok := ld.X.(*ssa.Alloc); ok {
+				return fieldOfLocalStruct(src, field, depth+1)
+			}
+		}
+		return false, false
+	case len(fieldStores) == 0 && len(wholeStores) == 0:
+		return false, true // zero value
+	}
+	return false, false
+}
